@@ -165,6 +165,12 @@ package atree
 //@        a.header.slabID == old(a.header.slabID) && as(slab, *ArrayMetaDataSlab).header.slabID == old(as(slab, *ArrayMetaDataSlab).header.slabID)
 //@   modifies a.childrenHeaders, a.childrenCountSum, a.header, as(slab, *ArrayMetaDataSlab).childrenHeaders, as(slab, *ArrayMetaDataSlab).childrenCountSum, as(slab, *ArrayMetaDataSlab).header, ghost.touched
 
+//@ # ---- ghost tree-shape relation used only in frames: inSub(x, r) = slab object r belongs to the subtree rooted at slab object x
+//@ ghost inSub : fn(x ref, r ref) bool
+//@ axiom (forall x ref :: {inSub(x, x)} inSub(x, x)) &&
+//@       (forall x ref, y ref, z ref :: {inSub(x, y), inSub(y, z)} inSub(x, y) && inSub(y, z) ==> inSub(x, z))
+//@       because "inSub is a reflexive, transitive relation (subtree membership)"
+
 //@ # ---- unified view of a child (leaf or index slab)
 
 //@ pred isArr(c ArraySlab) = c != nil && (is(c, *ArrayDataSlab) || is(c, *ArrayMetaDataSlab))
@@ -192,6 +198,7 @@ package atree
 //@        a.childrenHeaders[chi].count + a.childrenHeaders[chi + 1].count == old(a.childrenHeaders)[chi].count
 //@   ensures[C05] err == nil ==> hdrBand(a.childrenHeaders[chi]) && hdrBand(a.childrenHeaders[chi + 1]) && nodeWF(sto[a.childrenHeaders[chi].slabID]) && nodeWF(sto[a.childrenHeaders[chi + 1].slabID])
 //@   ensures[C03] err == nil ==> has(stored, a) && has(stored, sto[a.childrenHeaders[chi].slabID]) && has(stored, sto[a.childrenHeaders[chi + 1].slabID])
+//@   ensures[C09] forall id SlabID :: old(sto[id]) != nil && id != old(a.header.slabID) && id != old(a.childrenHeaders)[chi].slabID ==> sto[id] == old(sto[id])
 //@   modifies a.childrenHeaders, a.childrenCountSum, a.header, ghost.sto, ghost.stored, ghost.touched, alloc,
 //@        as(child, *ArrayDataSlab).elements, as(child, *ArrayDataSlab).header, as(child, *ArrayDataSlab).next,
 //@        as(child, *ArrayMetaDataSlab).childrenHeaders, as(child, *ArrayMetaDataSlab).childrenCountSum, as(child, *ArrayMetaDataSlab).header
@@ -221,6 +228,7 @@ package atree
 //@   ensures[C09] err == nil ==> sto[a.header.slabID] == a && distinctChildren(a)
 //@   ensures[C09] err == nil ==> agree(a)
 //@   ensures[C03] err == nil ==> has(stored, a) && has(stored, l) && has(stored, r)
+//@   ensures[C09] forall id SlabID :: id != old(a.header.slabID) && id != old(a.childrenHeaders)[li].slabID && id != old(a.childrenHeaders)[ri].slabID ==> sto[id] == old(sto[id])
 //@   modifies a.childrenHeaders, a.childrenCountSum, ghost.sto, ghost.stored, ghost.touched, alloc,
 //@        as(l, *ArrayDataSlab).elements, as(l, *ArrayDataSlab).header, as(r, *ArrayDataSlab).elements, as(r, *ArrayDataSlab).header,
 //@        as(l, *ArrayMetaDataSlab).childrenHeaders, as(l, *ArrayMetaDataSlab).childrenCountSum, as(l, *ArrayMetaDataSlab).header,
@@ -244,16 +252,18 @@ package atree
 //@   ensures[C09] err == nil ==> sto[old(a.childrenHeaders)[ri].slabID] == nil && sto[a.header.slabID] == a && distinctChildren(a)
 //@   ensures[C09] err == nil ==> agree(a)
 //@   ensures[C03] err == nil ==> has(stored, a) && has(stored, l)
+//@   ensures[C09] forall id SlabID :: id != old(a.header.slabID) && id != old(a.childrenHeaders)[li].slabID && id != old(a.childrenHeaders)[ri].slabID ==> sto[id] == old(sto[id])
 //@   modifies a.childrenHeaders, a.childrenCountSum, a.header, ghost.sto, ghost.stored, ghost.touched, alloc,
 //@        as(l, *ArrayDataSlab).elements, as(l, *ArrayDataSlab).header, as(l, *ArrayDataSlab).next,
 //@        as(l, *ArrayMetaDataSlab).childrenHeaders, as(l, *ArrayMetaDataSlab).childrenCountSum, as(l, *ArrayMetaDataSlab).header
 
 //@ pred sibReady(a *ArrayMetaDataSlab, k int, child ArraySlab) = isArr(sto[a.childrenHeaders[k].slabID]) && sameKind(sto[a.childrenHeaders[k].slabID], child) &&
-//@      nodeWF(sto[a.childrenHeaders[k].slabID]) && hdrBand(a.childrenHeaders[k]) && sto[a.childrenHeaders[k].slabID] != child
+//@      nodeWF(sto[a.childrenHeaders[k].slabID]) && hdrBand(a.childrenHeaders[k]) && sto[a.childrenHeaders[k].slabID] != child &&
+//@      inSub(a, sto[a.childrenHeaders[k].slabID]) && !inSub(sto[a.childrenHeaders[k].slabID], a)
 
 //@ func (a *ArrayMetaDataSlab) MergeOrRebalanceChildSlab(storage, child, chi, underflowSize) (err)  serves C01 C03 C05 C06 C09
 //@   requires storage != nil && wfMeta0(a) && metaLinked(a) && 0 <= chi && chi < len(a.childrenHeaders) && len(a.childrenHeaders) >= 2
-//@   requires isArr(child) && child == sto[a.childrenHeaders[chi].slabID] && nodeWF(child)
+//@   requires isArr(child) && child == sto[a.childrenHeaders[chi].slabID] && nodeWF(child) && inSub(a, child)
 //@   requires hdrOf(child).size < minThreshold && hdrOf(child).size >= ite(is(child, *ArrayDataSlab), 21, 12) && underflowSize == minThreshold - hdrOf(child).size
 //@   requires (forall k :: 0 <= k && k < len(a.childrenHeaders) && k != chi ==> a.childrenHeaders[k].count >= 1)
 //@   requires (chi > 0 ==> a.childrenHeaders[chi - 1].count >= 1) && (chi < len(a.childrenHeaders) - 1 ==> a.childrenHeaders[chi + 1].count >= 1)
@@ -266,5 +276,51 @@ package atree
 //@   ensures[C09] err == nil ==> sto[a.header.slabID] == a && distinctChildren(a)
 //@   ensures[C09] err == nil ==> agree(a)
 //@   ensures[C03] err == nil ==> has(stored, a)
-//@   modifies ArrayMetaDataSlab.childrenHeaders, ArrayMetaDataSlab.childrenCountSum, ArrayMetaDataSlab.header, ArrayDataSlab.elements, ArrayDataSlab.header, ArrayDataSlab.next,
-//@        ghost.sto, ghost.stored, ghost.touched, alloc
+//@   ensures[C09] forall id SlabID :: id != old(a.header.slabID) && (forall k :: 0 <= k && k < len(old(a.childrenHeaders)) ==> id != old(a.childrenHeaders)[k].slabID) ==> sto[id] == old(sto[id])
+//@   modifies ArrayMetaDataSlab.childrenHeaders@inSub(a), ArrayMetaDataSlab.childrenCountSum@inSub(a), ArrayMetaDataSlab.header@inSub(a),
+//@        ArrayDataSlab.elements@inSub(a), ArrayDataSlab.header@inSub(a), ArrayDataSlab.next@inSub(a), ghost.sto, ghost.stored, ghost.touched, alloc
+
+//@ # ---- positional operations through an index slab
+
+//@ # the routed child and every sibling are ready for their own operation (assumed: tree invariant one level down)
+//@ pred childrenReady(a *ArrayMetaDataSlab) = forall k :: 0 <= k && k < len(a.childrenHeaders) ==>
+//@      nodeWF(sto[a.childrenHeaders[k].slabID]) && hdrBand(a.childrenHeaders[k]) &&
+//@      (is(sto[a.childrenHeaders[k].slabID], *ArrayDataSlab) ==> elemsFit(as(sto[a.childrenHeaders[k].slabID], *ArrayDataSlab))) &&
+//@      (is(sto[a.childrenHeaders[k].slabID], *ArrayMetaDataSlab) ==> metaLinked(as(sto[a.childrenHeaders[k].slabID], *ArrayMetaDataSlab)) &&
+//@           len(as(sto[a.childrenHeaders[k].slabID], *ArrayMetaDataSlab).childrenHeaders) >= 2) &&
+//@      (forall j :: 0 <= j && j < len(a.childrenHeaders) ==> sameKind(sto[a.childrenHeaders[k].slabID], sto[a.childrenHeaders[j].slabID])) &&
+//@      inSub(a, sto[a.childrenHeaders[k].slabID]) && !inSub(sto[a.childrenHeaders[k].slabID], a) &&
+//@      (forall j :: 0 <= j && j < len(a.childrenHeaders) && j != k ==> !inSub(sto[a.childrenHeaders[k].slabID], sto[a.childrenHeaders[j].slabID]))
+
+//@ func (a *ArrayMetaDataSlab) Get(storage, index) (elem, err)  serves C01 C18
+//@   requires storage != nil && wfMeta(a) && metaLinked(a)
+//@   assume childrenReady(a) because "tree invariant (composition): children of a are well-formed, in band and linked"
+//@   ensures[C18] index >= a.header.count ==> err != nil && isUser(err)
+//@   ensures[C01] forall k :: 0 <= k && k < len(a.childrenHeaders) && index < a.childrenCountSum[k] && (k > 0 ==> a.childrenCountSum[k - 1] <= index) &&
+//@        is(sto[a.childrenHeaders[k].slabID], *ArrayDataSlab) && err == nil ==>
+//@        elem == as(sto[a.childrenHeaders[k].slabID], *ArrayDataSlab).elements[index - ite(k > 0, a.childrenCountSum[k - 1], 0)]
+//@   ensures err != nil ==> categorised(err)
+//@   uses monoCS
+//@   pure
+
+//@ # slabs outside the subtree of a (other than the value's own root) stay where they are
+//@ pred stoFrameMeta(a *ArrayMetaDataSlab, vr ref) = forall id SlabID :: old(sto[id]) != nil && old(sto[id]) != vr && !inSub(a, old(sto[id])) ==> sto[id] == old(sto[id])
+
+//@ func (a *ArrayMetaDataSlab) Set(storage, address, index, value) (prev, err)  serves C01 C03 C05 C06 C09 C18
+//@   requires storage != nil && value != nil && wfMeta(a) && metaLinked(a) && len(a.childrenHeaders) >= 2 && a.header.size + 14 <= 4294967295
+//@   assume childrenReady(a) because "tree invariant (composition): children of a are well-formed, in band, linked, and their subtrees do not contain a"
+//@   assume !inSub(a, valueRoot(value)) because "frame assumption F: the value being stored is not a container inside the subtree of a"
+//@   uses monoCS
+//@   ensures[C18] index >= old(a.header.count) ==> err != nil && isUser(err) && sto == old(sto) && touched == old(touched) &&
+//@        a.childrenHeaders == old(a.childrenHeaders) && a.childrenCountSum == old(a.childrenCountSum) && a.header == old(a.header)
+//@   ensures[C06] err == nil ==> wfMeta(a) && a.header.count == old(a.header.count) && a.header.slabID == old(a.header.slabID)
+//@   ensures[C06] err == nil ==> a.header.size <= old(a.header.size) + 14 && a.header.size + 14 >= old(a.header.size) && a.extraData == old(a.extraData)
+//@   ensures[C09] err == nil ==> sto[a.header.slabID] == a && distinctChildren(a)
+//@   ensures[C09] err == nil ==> agree(a)
+//@   ensures[C09] stoFrameMeta(a, valueRoot(value))
+//@   ensures[C05] err == nil ==> (forall k :: 0 <= k && k < len(a.childrenHeaders) ==> hdrBand(a.childrenHeaders[k]))
+//@   ensures[C03] err == nil ==> has(stored, a)
+//@   ensures[C18] err != nil ==> categorised(err)
+//@   modifies ArrayMetaDataSlab.childrenHeaders@inSub(a), ArrayMetaDataSlab.childrenCountSum@inSub(a), ArrayMetaDataSlab.header@inSub(a),
+//@        ArrayDataSlab.elements@inSub(a), ArrayDataSlab.header@inSub(a), ArrayDataSlab.next@inSub(a), ghost.sto, ghost.stored, ghost.touched, alloc,
+//@        as(valueRoot(value), *ArrayDataSlab).header, as(valueRoot(value), *ArrayDataSlab).inlined, as(valueRoot(value), *MapDataSlab).header, as(valueRoot(value), *MapDataSlab).inlined
